@@ -235,14 +235,15 @@ static void a_case(int cfg, const unsigned char *arg, size_t n) {
 static uint64_t case_id; static int shard, nshards;
 #define MINE() ((int)(case_id++ % (uint64_t)nshards) == shard)
 
-static const char *g_local[] = { "u", "User", "a.b", "\"q s\"", "\"a@b\"", "x\\@y", "x\\>y", "", "bad", "Mixed", "\"un\\\"q", "a b", "<x", "\\" };
+static const char *g_local[] = { "u", "User", "a.b", "\"q s\"", "\"a@b\"", "x\\@y", "x\\>y", "", "bad", "Mixed", "\"un\\\"q", "a b", "<x", "\\", "#c" };
 #define NLOCAL ((int)(sizeof g_local / sizeof g_local[0]))
 static const char *g_dom[] = { "local.example", "LOCAL.Example", "sub.local.example", "wild.example", "x.wild.example", "X.Y.WILD.EXAMPLE",
   "xwild.example", "mixed.example", "spaced.example", "more.example", "MORE.example", "a.morewild.example", "morewild.example", "mspaced.example",
   "remote.example", "example", "", "local.example.", ".local.example", "[127.0.0.1]", "[10.0.0.1]", "[0.0.0.0]", "[1.2.3.4]",
   "[256.256.256.256]", "[127.0.0.1", "[127.0.0.1]x", "[0127.000.0.1]", "[383.0.0.1]", "[127.0.0.1.]", "[127.0.0]", "[127..0.1]", "[ 127.0.0.1]",
   "[18446744073709551743.0.0.1]", "spam.example", "evil.example", "Case.Example", "a", "a.a", "aa", "comment.example", "hash.example", "dos.example",
-  "dos.example\r", "x.example", "x.example.", "caps.example", "notlisted.example", "\"local.example\"", "local.example>", "wild.example x" };
+  "dos.example\r", "x.example", "x.example.", "caps.example", "notlisted.example", "\"local.example\"", "local.example>", "wild.example x",
+  "#no.example", "# comment.example", "#hash.example" };
 #define NDOM ((int)(sizeof g_dom / sizeof g_dom[0]))
 static const char *g_wrap[] = { "<%s>", "FROM:<%s>", "TO:<%s>", "to: %s", "%s", "<@route.example:%s>", "<@r1,@r2:%s>", "TO:<%s> SIZE=100", "<%s",
   "%s>", ":%s", "TO:  %s extra", "<<%s>>", "to:@r:%s", "<@noroute %s>", "TO:\"<\"%s", "x:y:%s", "@r:%s" };
